@@ -433,6 +433,71 @@ R06.7 the only state shared between the output files of a run, the remote-templa
 			subRules(c, "R06.1", "config.Config.ParseTemplates|changed-flag", "the pass over the templated values visits them in map order: ", func(sub *Ctx) { ruleFixpoint(sub, r, cp, fd) })
 		}
 	}
+	// mechanical re-check of the S1 site: inside the map-ordered pass nothing writes to the TemplateData the values
+	// are rendered from (round 7: data.StructName refreshed inside the loop makes what {{.StructName | f}} renders
+	// to depend on whether the map yielded structname before that value)
+	if cp := r.Pkg("config"); cp != nil {
+		if fd := FuncDecl(cp, "Config.ParseTemplates"); fd != nil {
+			info := cp.TypesInfo
+			nLoops, bad := 0, ""
+			for _, g := range familyOf(cp, fd) {
+				ast.Inspect(g.Body, func(n ast.Node) bool {
+					rs, ok := n.(*ast.RangeStmt)
+					if !ok {
+						return true
+					}
+					if _, isMap := info.TypeOf(rs.X).Underlying().(*types.Map); !isMap {
+						return true
+					}
+					nLoops++
+					ast.Inspect(rs.Body, func(m ast.Node) bool {
+						var lhs []ast.Expr
+						switch st := m.(type) {
+						case *ast.AssignStmt:
+							lhs = st.Lhs
+						case *ast.IncDecStmt:
+							lhs = []ast.Expr{st.X}
+						}
+						for _, l := range lhs {
+							root := ast.Unparen(l)
+							for {
+								switch x := root.(type) {
+								case *ast.SelectorExpr:
+									root = ast.Unparen(x.X)
+									continue
+								case *ast.IndexExpr:
+									root = ast.Unparen(x.X)
+									continue
+								case *ast.StarExpr:
+									root = ast.Unparen(x.X)
+									continue
+								}
+								break
+							}
+							id, ok := root.(*ast.Ident)
+							if !ok {
+								continue
+							}
+							obj := info.Uses[id]
+							if obj == nil || obj.Pos() >= rs.Pos() && obj.Pos() < rs.End() {
+								continue
+							}
+							t := obj.Type()
+							if p, ok := t.Underlying().(*types.Pointer); ok {
+								t = p.Elem()
+							}
+							if nt, ok := t.(*types.Named); ok && nt.Obj().Name() == "TemplateData" {
+								bad = types.ExprString(l) + " at " + r.Pos(m.Pos())
+							}
+						}
+						return true
+					})
+					return true
+				})
+			}
+			c.Check(nLoops > 0 && bad == "", "R06.1", "config.Config.ParseTemplates|snapshot", r.Pos(fd.Pos()), "the TemplateData the values are rendered from is not written inside the map-ordered pass", "the pass over the templated values (map order) writes to the data it renders from ("+bad+"): what a value renders to depends on which values the map yielded before it, so file names and exit status differ from run to run")
+		}
+	}
 	// mechanical re-check of the S3 sites
 	ruleImportsListing(c, r, "R06.1")
 	if fd := FuncDecl(r.Pkg("config"), "RootConfig.Initialize"); fd != nil {
